@@ -655,6 +655,10 @@ impl<'g, G: AffineRepr, T: BorrowMut<Transcript>> Prover<'g, G, T> {
             (G::zero(), G::zero(), G::zero())
         };
 
+        #[cfg(ark_bulletproofs_verif)]
+        let (A_I2, A_O2, S2) =
+            crate::verif_hooks::take_phase2_override::<G>().unwrap_or((A_I2, A_O2, S2));
+
         let transcript = self.transcript.borrow_mut();
         transcript.append_point(b"A_I2", &A_I2);
         transcript.append_point(b"A_O2", &A_O2);
